@@ -56,6 +56,7 @@ func init() {
 			}
 			if id == "C10" {
 				closeTokenRule(p, r)
+				closeFlagLoweredWithEntry(p, r)
 				listMemberTrimRule(p, r)
 				clientCloseCaptureRule(p, r)
 			}
@@ -2590,4 +2591,105 @@ func readerReleaseRule(p *Prog, r *Report, prop string) {
 		r.Check("R5", "serve loop: the connection reader is released between requests only when request bodies are not streamed (or the connection ends with an error)", streamT.bad == 0, p.Pos(streamT.pos),
 			fmt.Sprintf("%d of %d explored arrivals at releaseReader have not found StreamRequestBody false: the body stream handed to the handler still reads through the released reader, over-reads into the next request, and those bytes are lost when the loop takes a fresh reader", streamT.bad, streamT.n), streamT.wit...)
 	}
+}
+
+// C10.R7: the close flag is the summary of the Connection header. It is lowered (assigned the constant false) only
+// where the stored Connection entries go away too: every path from such a store to a return passes the removal of the
+// Connection name from the generic list (a delAllArgs* call on the name "Connection", or on the routine's key when
+// the store sits under a comparison of that key with "Connection"), or the truncation of the whole list (reset).
+// A setter of another header that lowers the flag takes back a close decision made by the handler or the parser.
+func closeFlagLoweredWithEntry(p *Prog, r *Report) {
+	isConnConst := func(v ssa.Value) bool {
+		for range 4 {
+			switch x := v.(type) {
+			case *ssa.Const:
+				return x.Value != nil && x.Value.Kind() == constant.String && strings.EqualFold(constant.StringVal(x.Value), "Connection")
+			case *ssa.Convert:
+				v = x.X
+				continue
+			case *ssa.ChangeType:
+				v = x.X
+				continue
+			case *ssa.Call:
+				if f := x.Call.StaticCallee(); f != nil && f.Name() == "b2s" && len(x.Call.Args) == 1 {
+					v = x.Call.Args[0]
+					continue
+				}
+			case *ssa.UnOp:
+				if g, ok := x.X.(*ssa.Global); ok && x.Op == token.MUL {
+					return g.Name() == "strConnection"
+				}
+			}
+			return false
+		}
+		return false
+	}
+	n := 0
+	for _, fn := range p.funcsIn("") {
+		for _, b := range fn.Blocks {
+			for _, in := range b.Instrs {
+				st, ok := in.(*ssa.Store)
+				if !ok {
+					continue
+				}
+				if _, fv := fieldOfAddr(st.Addr); fv == nil || fv.Name() != "connectionClose" {
+					continue
+				}
+				c, isC := st.Val.(*ssa.Const)
+				if !isC || c.Value == nil || c.Value.ExactString() != "false" {
+					continue
+				}
+				n++
+				underConnCase := false
+				for _, g := range guardsOf(b) {
+					if g.Pol && strings.Contains(strings.ToLower(g.Atom), "\"connection\"") {
+						underConnCase = true
+					}
+				}
+				if !underConnCase {
+					// a switch on the key compiles to a chain of == tests: look at the If that enters this block
+					for _, pr := range b.Preds {
+						if iff, isIf := pr.Instrs[len(pr.Instrs)-1].(*ssa.If); isIf && pr.Succs[0] == b {
+							if bo, isB := iff.Cond.(*ssa.BinOp); isB && bo.Op == token.EQL && (isConnConst(bo.X) || isConnConst(bo.Y)) {
+								underConnCase = true
+							}
+						}
+					}
+				}
+				removal := func(i ssa.Instruction) bool {
+					switch x := i.(type) {
+					case ssa.CallInstruction:
+						f := x.Common().StaticCallee()
+						if f == nil || !inModule(f) || !strings.HasPrefix(f.Name(), "delAllArgs") || len(x.Common().Args) < 2 {
+							return false
+						}
+						k := x.Common().Args[1]
+						if isConnConst(k) {
+							return true
+						}
+						if underConnCase {
+							for _, prm := range fn.Params {
+								if derivesFromValue(k, prm) {
+									return true
+								}
+							}
+						}
+					case *ssa.Store:
+						if _, fv := fieldOfAddr(x.Addr); fv != nil && fv.Name() == "h" {
+							if sl, ok := x.Val.(*ssa.Slice); ok && sl.Low == nil {
+								if hc, ok := sl.High.(*ssa.Const); ok && hc.Value != nil && hc.Value.ExactString() == "0" {
+									return true
+								}
+							}
+						}
+					}
+					return false
+				}
+				hit, path := reachAvoiding(fn, st, isReturn, removal, nil)
+				r.Check("R7", fmt.Sprintf("%s: the close flag is lowered only together with the removal of the stored Connection entries", funcName(fn)), hit == nil, p.Pos(st.Pos()),
+					"connectionClose = false, and a return is reachable without the Connection name being removed from the header's list or the list being reset: a routine that is not about the Connection header takes back a close decision (the handler's SetConnectionClose, or the parser's) - the peer is not told the connection closes, or a closing connection is pooled", blocksString(p, path)...)
+			}
+		}
+	}
+	r.Floor("R7", "stores lowering the close flag", n, 4)
 }
